@@ -816,7 +816,10 @@ class Run:
                 why = str(getattr(gd, "via", "") or "")
                 self.viol(rule, "guard-missing:%s" % gd.label, "no deciding branch on guard `%s` found in %s%s" % (gd.label, body.path, " (%s)" % why if why else ""), body, body.lines[0])
                 continue
+            live = g.reach((0,))
             for (s, d) in rej:
+                if s not in live:
+                    continue        # a branch left behind by return threading (its block is no longer reachable from the entry)
                 reach = g.reach((d,), cut=acc)
                 bad = sinks & reach
                 if bad:
